@@ -133,7 +133,7 @@ class AuthorizationEndpointMixin:
         if request.redirect_uri:
             if not client.check_redirect_uri(request.redirect_uri):
                 raise InvalidRequestError(
-                    f"Redirect URI {request.redirect_uri} is not supported by client.",
+                    "Redirect URI is not supported by client.",
                     state=request.state,
                 )
             return request.redirect_uri
